@@ -98,7 +98,8 @@ Definition one_per_component (U out : Z -> Z -> bool) : Prop :=
 Definition labelling_ok (U : Z -> Z -> bool) (Lb : Z -> Z -> Z) (n : Z) : Prop :=
   (forall y x, U y x = true -> 1 <= Lb y x <= n) /\
   (forall p q, U (fst p) (snd p) = true -> U (fst q) (snd q) = true ->
-     (Lb (fst p) (snd p) = Lb (fst q) (snd q) <-> conn8 U p q)).
+     (Lb (fst p) (snd p) = Lb (fst q) (snd q) <-> conn8 U p q)) /\
+  (forall y x, 0 < Lb y x -> U y x = true).
 
 Definition pair_eqb (p q : Z * Z) : bool := (fst p =? fst q) && (snd p =? snd q).
 Definition cells (h w : nat) : list (Z * Z) := flat_map (fun y => map (fun x => (y, x)) (zrange w)) (zrange h).
@@ -118,7 +119,7 @@ Definition cert_check (h w : nat) (U : Z -> Z -> bool) (Lb D : Z -> Z -> Z) (roo
       && (if D y x =? 0 then pair_eqb (pnth roots l) p
           else existsb (fun d => U (y + fst d) (x + snd d) && (Lb (y + fst d) (x + snd d) =? l)
                                  && (D (y + fst d) (x + snd d) =? D y x - 1)) nb8)
-    else true) (cells h w).
+    else l =? 0) (cells h w).
 
 (* the marked pixels lie in U, the only marked pixel of label k is sel[k-1], and it is marked *)
 Definition sel_check (h w : nat) (U out : Z -> Z -> bool) (Lb : Z -> Z -> Z) (sel : list (Z * Z)) (n : Z) : bool :=
@@ -133,7 +134,7 @@ Definition noties_check (image : list (list Z)) (mask : option (list (list bool)
   let h := length image in
   let w := length (hd [] image) in
   let U := get2 false (tab h w (reg_max_b image mask st)) in
-  wfb h w out
+  wfb h w out && wfb h w Lb
   && cert_check h w U (get2 0 Lb) (get2 0 D) roots n
   && sel_check h w U (get2 false out) (get2 0 Lb) sel n.
 
